@@ -1914,6 +1914,37 @@ func (m *repoManager) merge(parents []dvid.UUID, note string, mt MergeType) (dvi
 	}
 	m.repoMutex.RUnlock()
 
+	// Validate all parents before anything is allocated or linked, so that a refused
+	// merge leaves the DAG untouched: each parent must be a distinct, committed node
+	// of this repo.
+	parentVs := make([]dvid.VersionID, len(parents))
+	parentNodes := make([]*nodeT, len(parents))
+	for i, parent := range parents {
+		v, err := m.versionFromUUID(parent)
+		if err != nil {
+			return dvid.NilUUID, err
+		}
+		r.RLock()
+		node, found := r.dag.nodes[v]
+		r.RUnlock()
+		if !found {
+			return dvid.NilUUID, ErrInvalidVersion
+		}
+		node.RLock()
+		locked := node.locked
+		node.RUnlock()
+		if !locked {
+			return dvid.NilUUID, ErrBranchUnlockedNode
+		}
+		for j := 0; j < i; j++ {
+			if parentVs[j] == v {
+				return dvid.NilUUID, fmt.Errorf("parent %s is listed more than once in merge", parent)
+			}
+		}
+		parentVs[i] = v
+		parentNodes[i] = node
+	}
+
 	// Add the child node.  Since it's new and unavailable, no need to lock it.
 	childUUID, childV, err := m.newUUID(nil)
 	if err != nil {
@@ -1926,35 +1957,18 @@ func (m *repoManager) merge(parents []dvid.UUID, note string, mt MergeType) (dvi
 	m.repos[childUUID] = r
 	m.repoMutex.Unlock()
 
-	r.Lock()
-	r.dag.nodes[childV] = child
-	r.Unlock()
-
 	// Set up pointers with parents
-	for _, parent := range parents {
-		v, err := m.versionFromUUID(parent)
-		if err != nil {
-			return dvid.NilUUID, err
-		}
-		r.RLock()
-		node, found := r.dag.nodes[v]
-		r.RUnlock()
-		if !found {
-			return dvid.NilUUID, ErrInvalidVersion
-		}
-
+	for i, node := range parentNodes {
 		node.Lock()
-		if !node.locked {
-			node.Unlock()
-			return dvid.NilUUID, ErrBranchUnlockedNode
-		}
-
-		// Add this parent node
-		child.parents = append(child.parents, v)
+		child.parents = append(child.parents, parentVs[i])
 		node.children = append(node.children, childV)
 		node.updated = time.Now()
 		node.Unlock()
 	}
+
+	r.Lock()
+	r.dag.nodes[childV] = child
+	r.Unlock()
 
 	// Notify data instances that we have a new child in case they have to do some kind of initialization.
 	r.RLock()
